@@ -89,7 +89,38 @@ def check_dag(ctx, nodes, tag, routes=('ctor', 'builder'), boc=True):
             except Exception as e:
                 ctx.fail('parse', f'spec-valid tree cannot be parsed from its BoC: {type(e).__name__}', inp, repr(e), 'cell')
             ctx.count('boc-parse')
+            # ... and a bag of the same tree written by ANOTHER serialiser that stores every cell's hashes/depths inside its record
+            # (d1 bit 16; legal, the library's own to_boc never sets it): types, masks and all per-level hashes must come out the same
+            if route == routes[0]:
+                foreign_parse(ctx, nodes, spec, inp, root)
     return spec
+
+
+def foreign_parse(ctx, nodes, spec, inp, root):
+    from pytoniq_core.boc.cell import Cell
+    from . import C05
+    top = len(nodes) - 1
+    members = sorted(C05.reachable(nodes, [top]), reverse=True)          # parents before children (child-before-parent node lists)
+    recs = C05.listing(nodes, spec, members)
+    n = len(recs)
+    size = 1 if n < 256 else 2
+    for stored in ('all', 'exotic-only'):
+        store = [True] * n if stored == 'all' else [nodes[i][0] != G.ORD for i in members]
+        tot = sum(len(C05.enc_record(r, size, st)) for r, st in zip(recs, store))
+        fr = dict(magic='g', size=size, off=max(1, (tot.bit_length() + 7) // 8), idx=False, crc=False, cache=False, store=store, cflags=[])
+        data = C05.py_encode(recs, [0], fr)
+        ctx.count('boc-foreign-stored-hashes')
+        try:
+            back = Cell.one_from_boc(data)
+        except Exception as e:
+            ctx.fail('parse-foreign', f'a conforming bag with stored hashes ({stored}) of a spec-valid exotic tree is refused: {type(e).__name__}',
+                     dict(inp, boc=data.hex()[:4000]), repr(e), 'cell')
+            return
+        ob, orr = G.observe(back), G.observe(root)
+        if cmp_obs(ob, orr) or back.type_ != root.type_ or [r.type_ for r in back.refs] != [r.type_ for r in root.refs]:
+            ctx.fail('parse-foreign', f'cell parsed from a conforming bag with stored hashes ({stored}) differs from the constructed one',
+                     dict(inp, boc=data.hex()[:4000]), ob, orr)
+            return
 
 
 def prune_invariance(ctx, rng, t):
@@ -191,6 +222,10 @@ def run(ctx):
         db = G.DagBuilder()
         G.gen_exotic_tree(rng, db, rng.choice([0, 0, 1, 2, 3]), rng.randrange(1, 14))
         check_dag(ctx, db.nodes, f'exotic{t}', boc=(t % 4 == 0))
+    # an ordinary cell and an exotic cell with IDENTICAL bits and references built next to each other (both orders), plus
+    # near twins in bit length / reference order: nothing remembered from one may leak into the other
+    for t in range(ctx.n(80, 800)):
+        check_dag(ctx, G.near_twins(rng, exotic=True), f'twins{t}', boc=(t % 4 == 0))
     for t in range(ctx.n(250, 2500)):
         prune_invariance(ctx, rng, t)
     for t in range(ctx.n(300, 3000)):
